@@ -35,6 +35,23 @@ def ncells(spec):
 def cases(tier, seed=0):
     cs = []
     fam = recursive.family()
+    if tier == 'thorough':
+        # deeper tier: the tensor-valued shapes over a 3-value domain in the idempotent semirings (exact obligations), more iteration budgets
+        for g in recursive.family(3):
+            if g['name'] in ('hmm', 'start_recursive'):
+                spec = g['spec']
+                N = ncells(spec)
+                for method in ('fixed-point', 'newton', 'linear'):
+                    for kind in ('bool', 'viterbi'):
+                        for kmax in (0, 2, N + 1):
+                            cs.append({'name': g['name'] + '_3', 'spec': spec, 'linear': g['linear'], 'semiring': kind, 'method': method, 'kmax': kmax, 'tol': 0, 'N': N})
+        for g in fam:
+            N = ncells(g['spec'])
+            for method in ('fixed-point', 'newton'):
+                for kind in ('bool', 'viterbi'):
+                    for kmax in (2, 3):
+                        if kmax < N + 1:
+                            cs.append({'name': g['name'], 'spec': g['spec'], 'linear': g['linear'], 'semiring': kind, 'method': method, 'kmax': kmax, 'tol': 0, 'N': N})
     for g in fam:
         spec, lin = g['spec'], g['linear']
         N = ncells(spec)
